@@ -117,7 +117,8 @@ CHECKS = {
         text="Seeded exploration: every token a simulated device emits -- real TOTP.generate() reading the simulated, skewed and "
              "stepping device clock, or given int/float/aware/naive datetime times placed on and around period boundaries up to 2^40 -- "
              "is compared with an independent HOTP/TOTP reference, together with counter, validity interval, remaining/valid under the "
-             "same clock, and all key spellings. Weaker fit: the truth of C13 does not depend on a schedule; the simulator only owns the "
+             "same clock, and all key spellings; histories include key rotation on a live object (TOTP.key assigned after the object has "
+             "generated and been serialised: its codes must follow the new secret). Weaker fit: the truth of C13 does not depend on a schedule; the simulator only owns the "
              "clock seam. Evidence over sampled histories, not proof.",
         note="Trusted: the ~10-line reference HOTP (stdlib hmac+struct). Keys 1-64 bytes, sha1/256/512, digits 6-10, periods 1-3600, times < 2^40.",
         design_ref="DESIGN.md section 4, C13"),
@@ -125,8 +126,8 @@ CHECKS = {
         level="exploration",
         technique="deterministic discrete-event simulation with fault injection (clock skew/steps, delayed/duplicated/dropped/reordered/replayed submissions, server restarts), reference matcher + history invariants + bounded liveness",
         text="Seeded search over histories of a simulated login service: devices with skewed/stepping clocks, a network that delays, "
-             "duplicates, drops and reorders submissions, an attacker replaying and forging codes, server clock steps and restarts from "
-             "the durable record. Every server decision of the real TOTP.match() -- a quarter of them through the stateless one-shot "
+             "duplicates, drops and reorders submissions, an attacker replaying and forging codes, server clock steps, restarts from "
+             "the durable record and key rotation on the live server object. Every server decision of the real TOTP.match() -- a quarter of them through the stateless one-shot "
              "TOTP.verify(token, serialised or live source, ...) -- is compared with a reference matcher written from the "
              "statement, evaluated at the time the server's clock actually returned (recorded at the seam); accepted counters must strictly "
              "increase per account; in fault-free runs an in-sync device's fresh code must be accepted at first delivery. Two steered "
@@ -141,8 +142,9 @@ CHECKS = {
         technique="deterministic simulation: provisioning messages and durable records are the serialised forms; restarts and hostile/corrupted sources are injected faults; field-by-field and token oracle",
         text="In the totp world every provisioning (URI/JSON/dict through a stock or the same using()-factory) and every server restart from "
              "its durable record is a serialisation round trip, checked field by field and by codes at three probe times against the reference; "
-             "21 kinds of inconsistent/incomplete/truncated sources must raise ValueError. Weaker fit: round-tripping is a pure function; the "
-             "simulator supplies the histories (restart, reprovision) and hostile labels/issuers/class defaults.",
+             "21 kinds of inconsistent/incomplete/truncated sources must raise ValueError; after a key rotation on the live server object its "
+             "devices are re-provisioned from its serialised form. Weaker fit: round-tripping is a pure function; the "
+             "simulator supplies the histories (restart, reprovision, re-key) and hostile labels/issuers/class defaults.",
         note="AppWallet encryption cannot run (no 'cryptography' package on this image) and is not claimed. Labels/issuers without ':' and without leading/trailing blanks.",
         design_ref="DESIGN.md section 4, C15"),
     "C16": dict(
@@ -179,13 +181,13 @@ CHECKS = {
         design_ref="DESIGN.md section 4, C18"),
     "C19": dict(
         level="exploration",
-        technique="deterministic simulation of real threads: seeded baton-passing scheduler pre-empting at sys.settrace line/opcode events (sticky walk, PCT, hot-spot, uniform), fork-per-run fresh first-use state, cooperative locks; per-thread outcome vs single-thread outcome",
+        technique="deterministic simulation of real threads: seeded baton-passing scheduler pre-empting at sys.settrace line/opcode events (sticky walk, PCT, hot-spot, uniform, park-one-thread-mid-operation), fork-per-run fresh first-use state, cooperative locks; per-thread outcome vs single-thread outcome",
         text="Each run forks a process in which nothing has been used yet, builds one first-use object (LazyCryptContext with/without "
              "onload, a shipped preset, a multi-backend hasher, a lazy base64 engine, an unloaded registry name, a context's record "
              "caches, the digest-info cache, passlib.pwd's word sets, a libpass context) or an initialised shared context with a "
              "non-reentrant crypt(3) model, and lets 2-3 real "
-             "threads make their first calls (for the registry also: sibling names hosted by one not-yet-imported module, and first "
-             "verify through a freshly imported handler) while a seeded scheduler decides at every source line of /repo code who runs next. Every "
+             "threads make their first calls (for the registry also: sibling names hosted by one not-yet-imported module, first "
+             "verify through a freshly imported handler, and enumeration of a pre-populated registry while other threads load entries) while a seeded scheduler decides at every source line of /repo code who runs next. Every "
              "lock object the library keeps is replaced by a cooperative lock with the same semantics, so parked threads never block "
              "the simulator and deadlocks are detected; in a share of the runs importlib's per-module import locks wait cooperatively "
              "too and module / class bodies of imports made by the threads are pre-emptible (a half-built module sits in sys.modules). Each thread's outcomes must equal those of the same calls made by one thread in "
